@@ -525,7 +525,7 @@ func (w *Whisper) fetchRawPoints(archiveID int, fromInterval, untilInterval Time
 	untilOffset := r.pointOffsetAt(r.pointIndex(baseInterval, untilInterval))
 	if fromOffset < untilOffset {
 		i := 0
-		for off := fromOffset; off < untilOffset; off += pointSize {
+		for off := fromOffset; off < untilOffset && i < len(points); off += pointSize {
 			points[i], err = w.readPointAt(off)
 			if err != nil {
 				return nil, err
@@ -539,14 +539,14 @@ func (w *Whisper) fetchRawPoints(archiveID int, fromInterval, untilInterval Time
 	arcEndOffset := arcStartOffset + r.numberOfPoints*pointSize
 
 	i := 0
-	for off := fromOffset; off < arcEndOffset; off += pointSize {
+	for off := fromOffset; off < arcEndOffset && i < len(points); off += pointSize {
 		points[i], err = w.readPointAt(off)
 		if err != nil {
 			return nil, err
 		}
 		i++
 	}
-	for off := arcStartOffset; off < untilOffset; off += pointSize {
+	for off := arcStartOffset; off < untilOffset && i < len(points); off += pointSize {
 		points[i], err = w.readPointAt(off)
 		if err != nil {
 			return nil, err
